@@ -95,8 +95,8 @@ def subst_self_fields(e, fieldmap):
     k = e[0]
     if k == 'proj' and e[1][0] == 'arg' and e[1][1] == 1:
         names = [p[1:] for p in e[2] if p.startswith('.')]
-        if len(names) == 1 and names[0] in fieldmap:
-            return fieldmap[names[0]]
+        if names and '.'.join(names) in fieldmap:
+            return fieldmap['.'.join(names)]
     if k in ('cast',):
         return type(e)((e[0], e[1], e[2], e[3], subst_self_fields(e[4], fieldmap)))
     if k == 'bin':
@@ -113,7 +113,13 @@ def constructor_fields(f, adt):
     for loc, s in f.assigns():
         rv = s['rv']
         if rv['k'] == 'agg' and rv.get('adt') == adt:
-            return loc, dict(zip(rv['fields'], [eb.operand(o) for o in rv['ops']]))
+            fm = dict(zip(rv['fields'], [eb.operand(o) for o in rv['ops']]))
+            # a field that is itself a small struct (`submission_ring: Mapping { addr, len }`): its fields under dotted names
+            for k_, v_ in list(fm.items()):
+                if v_[0] == 'agg' and v_[2] and '::' in v_[1] and len(v_[2]) == len(v_[3]):
+                    for n2, v2 in zip(v_[2], v_[3]):
+                        fm['%s.%s' % (k_, n2)] = v2
+            return loc, fm
     return None, None
 
 
@@ -148,7 +154,7 @@ def r2_unmap_agreement(r, facts):
         seen = set()
         for loc, p, ln in sites:
             ap = access_path(p)
-            fld = ap[1].split('.')[-1] if ap and ap[0][0] == 'arg' else None
+            fld = (ap[1] if ap[1] in fm else ap[1].split('.')[-1]) if ap and ap[0][0] == 'arg' else None
             if not r.require(fld in fm, dpath + '/ptr', 'munmap pointer is not a field stored at creation: %s' % (p,), d.where(loc)):
                 continue
             seen.add(fld)
@@ -384,4 +390,5 @@ def check(ctx):
     ctx.run('C12.R7', 'LIFE-3/4: abandoned states are reclaimed by the final completion processed in teardown', life.life4)
     from . import c18
     ctx.run('C12.R11', 'every mapping made while building the ring is unmapped on the error paths and handed to exactly one owner on success (no armed clean-up guard survives) (=C18.R2)', c18.r2_map_unmap)
+    ctx.run('C12.R12', 'AsyncFd::close(self) moves the queue handle out of the disowned value exactly once: a clone next to the disowned original is a reference to the ring nobody ever drops (its descriptor and mappings are never released) (=C07.R6)', c07.r6_close_self)
     ctx.run('C12.R10', 'an operation abandoned while running is always marked Dropped (also when no cancel request could be queued): only then does a later poll or the teardown reclaim its state (=LIFE-3)', life.life3)
